@@ -219,6 +219,11 @@ def build(S, tier):
                 I.path.assume(iv.t >= 1)
                 mv = B.build(D) if name != "mid" else I.call(I.getattr(B.build(D), "__add__"), [B.build(D)], {})
                 I.call(I.getattr(sim, "add_move"), [mv], {"criteria": crit(), "name": name, "interval": iv, "probability": B.fresh("prob_" + name), "minimum_count": 0})
+            if "Hamiltonian" in qn:
+                # the natural move of this driver: a Hamiltonian trajectory with an integrator whose parameters are all symbolic
+                H = I.get_class("quansino.moves.displacement.HamiltonianDisplacementMove")
+                I.call(I.getattr(sim, "add_move"), [B.build(H)], {"criteria": I.call(I.get_class("quansino.mc.criteria.HamiltonianCanonicalCriteria"), [], {}), "name": "ham",
+                                                                  "interval": 1, "probability": B.fresh("prob_ham"), "minimum_count": 0})
             f = FileModel("w")
             ob = I.call(I.get_class("quansino.io.restart.RestartObserver"), [sim, f], {"interval": 1, "mode": "w"})
             I.call(I.getattr(sim.attrs["file_manager"], "attach_observer"), ["restart", ob], {})
